@@ -641,6 +641,7 @@ def _move_enter(direction):
                    hot_free0=bs['hot_free'], cold_free0=bs['cold_free'],
                    hot_rate=bs['hot_rate'], cold_rate=bs['cold_rate'],
                    hot_stored0=list(bs['hot_stored']), cold_stored0=list(bs['cold_stored']),
+                   hot_transfer0=bs['hot_transfer'], cold_transfer0=bs['cold_transfer'],
                    obs=None, size=None)
         tr.moves.append(rec)
     return f
